@@ -61,15 +61,19 @@ func astSeq(root ast.Node, prune map[int]bool) (seq []ast.Node) {
 	return
 }
 
+// levelVisitor hands out a fresh visitor (depth+1) for the children of every node and records
+// which visitor receives each call: go/ast delivers the closing Visit(nil) to the visitor that
+// Visit(node) returned.
 type levelVisitor struct {
-	seq   *[]dst.Node
-	ord   *int
-	prune map[int]bool
-	depth int
-	bad   *string
+	seq    *[]dst.Node
+	depths *[]int
+	ord    *int
+	prune  map[int]bool
+	depth  int
 }
 
 func (v levelVisitor) Visit(n dst.Node) dst.Visitor {
+	*v.depths = append(*v.depths, v.depth)
 	if n == nil {
 		*v.seq = append(*v.seq, nil)
 		return nil
@@ -79,11 +83,42 @@ func (v levelVisitor) Visit(n dst.Node) dst.Visitor {
 	if v.prune[*v.ord-1] {
 		return nil
 	}
-	// children must be visited with the visitor returned here
-	return levelVisitor{v.seq, v.ord, v.prune, v.depth + 1, v.bad}
+	return levelVisitor{v.seq, v.depths, v.ord, v.prune, v.depth + 1}
 }
 
-func dstSeq(root dst.Node, prune map[int]bool, walker int) (seq []dst.Node) {
+type astLevelVisitor struct {
+	seq    *[]ast.Node
+	depths *[]int
+	ord    *int
+	prune  map[int]bool
+	depth  int
+}
+
+func (v astLevelVisitor) Visit(n ast.Node) ast.Visitor {
+	if n != nil && isComment(n) {
+		return nil
+	}
+	*v.depths = append(*v.depths, v.depth)
+	if n == nil {
+		*v.seq = append(*v.seq, nil)
+		return nil
+	}
+	*v.seq = append(*v.seq, n)
+	*v.ord++
+	if v.prune[*v.ord-1] {
+		return nil
+	}
+	return astLevelVisitor{v.seq, v.depths, v.ord, v.prune, v.depth + 1}
+}
+
+// astWalkSeq is the reference for the Visitor API: go/ast.Walk with per-level visitors.
+func astWalkSeq(root ast.Node, prune map[int]bool) (seq []ast.Node, depths []int) {
+	ord := 0
+	ast.Walk(astLevelVisitor{&seq, &depths, &ord, prune, 0}, root)
+	return
+}
+
+func dstSeq(root dst.Node, prune map[int]bool, walker int) (seq []dst.Node, depths []int) {
 	ord := 0
 	if walker == 0 {
 		dst.Inspect(root, func(n dst.Node) bool {
@@ -97,8 +132,7 @@ func dstSeq(root dst.Node, prune map[int]bool, walker int) (seq []dst.Node) {
 		})
 		return
 	}
-	var bad string
-	dst.Walk(levelVisitor{&seq, &ord, prune, 0, &bad}, root)
+	dst.Walk(levelVisitor{&seq, &depths, &ord, prune, 0}, root)
 	return
 }
 
@@ -140,6 +174,13 @@ func reflectChildren(n dst.Node) map[dst.Node]bool {
 	return out
 }
 
+func at(xs []int, i int) int {
+	if i < len(xs) {
+		return xs[i]
+	}
+	return -1
+}
+
 func check(sub string) func(t h.TB, c Case) {
 	return func(t h.TB, c Case) {
 		fset := token.NewFileSet()
@@ -158,8 +199,21 @@ func check(sub string) func(t h.TB, c Case) {
 			prune[p] = true
 		}
 		want := astSeq(af, prune)
+		var wantDepths []int
+		if c.Walker == 1 {
+			want, wantDepths = astWalkSeq(af, prune)
+		}
 		var got []dst.Node
-		h.Guard(t, sub, c, func() { got = dstSeq(df, prune, c.Walker) })
+		var gotDepths []int
+		h.Guard(t, sub, c, func() { got, gotDepths = dstSeq(df, prune, c.Walker) })
+		if c.Walker == 1 && fmt.Sprint(wantDepths) != fmt.Sprint(gotDepths) {
+			for i := range wantDepths {
+				if i >= len(gotDepths) || wantDepths[i] != gotDepths[i] {
+					h.Fail(t, sub, c, "Walk: call %d is delivered to the visitor of level %d, go/ast.Walk delivers it to level %d (each Visit returns a fresh visitor for the children and expects the closing Visit(nil) itself)", i, at(gotDepths, i), wantDepths[i])
+				}
+			}
+			h.Fail(t, sub, c, "Walk: %d visitor calls, go/ast.Walk makes %d", len(gotDepths), len(wantDepths))
+		}
 		if len(want) != len(got) {
 			h.Fail(t, sub, c, "visit sequence length: dst %d, go/ast %d (pruned ordinals %v)", len(got), len(want), c.Prune)
 		}
